@@ -10,7 +10,7 @@ def classify(desc, bad):
             "fields": ",".join(b[0] for b in bad)}
 
 
-def run(ctx, prop="C13", props=PROPS, field_filter=None, checkers=("none", "byteeq", "count")):
+def run(ctx, prop="C13", props=PROPS, field_filter=None, checkers=("none", "byteeq", "count"), extra=None):
     C.build(ctx, [props[:-2] + ".vo"], need_shim=True)
     aud = C.audit(ctx, props)
     violations, ties = [], []
@@ -47,7 +47,11 @@ def run(ctx, prop="C13", props=PROPS, field_filter=None, checkers=("none", "byte
                                "replay": {"kind": "configuration", "abstract": desc["abs"], "scenario": lines, "observed": ob, "documented": sp}})
         elif len(samples) < 5 and len(present) >= 2:
             samples.append({"config": desc["abs"], "observed": ob})
-    cov = {"evaluations": len(res), "distinct_nontrivial": nontriv,
+    extra_runs = 0
+    if extra is not None:
+        ev, et, extra_runs = extra(ctx)
+        violations += ev; ties += et
+    cov = {"evaluations": len(res) + extra_runs, "extra_directed_runs": extra_runs, "distinct_nontrivial": nontriv,
            "rule": "exhaustive matrix: write side {none, plain, sharded} x read-only levels {0,1,2%s} plain/sharded x each level {absent, A, B} x checker %s x {get, touch, set, put, get_or_update x {Accept, Promote, Replace} x populate {value P, value A, NotFound, other error}} plus ensure/set_temp_file/put_temp_file, plus targeted additions in both tiers: three read-only levels with a gap between two copies, and entries living in the secondary shard of a sharded level looked up through a fresh handle; each point run on the implementation and on the model (results, snapshots, call traces) and judged against the extracted abstract specification. Non-trivial = >=2 levels hold the key, or Promote/Replace, or populate fails." % ("" if ctx.quick() else ",3", list(checkers)),
            "samples": samples, "traces_validated_against_impl": agree, "exhaustive": True}
     if prop == "C13":
